@@ -4,5 +4,6 @@
 set -e
 cd "$(dirname "$0")"
 PYTHONPATH=/repo /venv/bin/python tools/translate.py
+python3 tools/gen_driver.py
 cd lean
 lake build S2T s2t_driver
